@@ -5,6 +5,8 @@ import (
 	"errors"
 	"fmt"
 	"io"
+	"net"
+	"os"
 	"time"
 
 	"go.miragespace.co/specter/spec/protocol"
@@ -53,6 +55,21 @@ func (w *World) checkC27() {
 	// UNKNOWN_ERROR); proxyDown makes the dial to the remote server itself fail.
 	outcome := map[int]map[uint64]string{}
 	proxyDown := map[int]map[string]bool{} // gateway -> remote chord address -> dial fails
+	// a failed dial comes in several kinds: the transport's own connect timeout or an aborted handshake are errors
+	// that wrap the context errors although the caller's context is alive
+	dialErr := func(what string) error {
+		switch r.Intn(5) {
+		case 0:
+			return fmt.Errorf("scripted: %s: %w", what, context.DeadlineExceeded)
+		case 1:
+			return fmt.Errorf("scripted: %s: %w", what, context.Canceled)
+		case 2:
+			return fmt.Errorf("scripted: %s: %w", what, io.EOF)
+		case 3:
+			return &net.OpError{Op: "dial", Net: "udp", Err: os.ErrDeadlineExceeded}
+		}
+		return errors.New("scripted: " + what)
+	}
 	for si, s := range w.servers {
 		outcome[si] = map[uint64]string{}
 		proxyDown[si] = map[string]bool{}
@@ -64,13 +81,13 @@ func (w *World) checkC27() {
 			case "ok":
 				return nil
 			case "error":
-				return errors.New("scripted: connection to the client broke")
+				return dialErr("connection to the client broke")
 			}
 			return transport.ErrNoDirect
 		}
 		s.ChordT.DialHook = func(peer *protocol.Node, kind protocol.Stream_Type) error {
 			if kind == protocol.Stream_PROXY && proxyDown[si][peer.GetAddress()] {
-				return errors.New("scripted: remote node unreachable")
+				return dialErr("remote node unreachable")
 			}
 			return nil
 		}
